@@ -1,0 +1,9 @@
+//go:build verif
+
+// Contracts for package bloomfilter, read by /verif/kvc (contract-based deductive verification).
+// Comment-only; excluded from every build without the `verif` tag.
+package bloomfilter
+
+//@ func NewBloomFilter
+//@   trusted allocation only (size computation in floating point is not modelled)
+//@   ensures result != nil && fresh(result)
